@@ -63,7 +63,17 @@ PendAt(e, typ) == {id \in DOMAIN ops : ops[id].st = "pend" /\ ops[id].typ = typ 
 InFlight(e) == {id \in PendAt(e, "W") : ~ops[id].taken}
 
 NewOp(typ, e, c, dg, cls) ==
-  [typ |-> typ, end |-> e, conn |-> c, ctx |-> "live", st |-> "pend", dg |-> dg, taken |-> FALSE, cls |-> cls]
+  [typ |-> typ, end |-> e, conn |-> c, ctx |-> "live", st |-> "pend", dg |-> dg, taken |-> FALSE, cls |-> cls,
+   lane |-> 0, s |-> 0]
+
+\* A logical clock per end: it advances with every completed write and every raw injection of that end.  A write
+\* is stamped with the clock at its start (s); an item accepted for delivery with the clock after its completion
+\* (o).  Item y PRECEDES write x iff y was complete before x began (y.o <= x.s): only then does "write order"
+\* say anything about the two.  Writes of one sequential writer are totally ordered; writes of concurrent
+\* writers (goat's client multiplexer writes from every calling goroutine) overlap and may arrive either way.
+Clock(e) == nW[e] + nraw
+TMin(S) == CHOOSE x \in S : \A y \in S : x <= y
+TRemoveAt(sq, i) == SubSeq(sq, 1, i - 1) \o SubSeq(sq, i + 1, Len(sq))
 
 EmptyQ == [e \in Ends |-> <<>>]
 ZeroN == [e \in Ends |-> 0]
@@ -74,13 +84,14 @@ TInit ==
   /\ broken = FALSE /\ nW = ZeroN /\ nR = ZeroN /\ nraw = 0
 
 \* ---------------------------------------------------------------- writes ----
-\* One write at a time per end (the harness's writers are sequential), so
-\* "write order" is the order of the WStart events of that end.
-WStart(id, e, dg) ==
+\* One write at a time per writer ("lane") of an end: the writes of a lane are in program order; writes of
+\* different lanes of the same end may overlap.  Lane 0 is the single sequential writer of most scenarios.
+WStartL(id, e, dg, lane) ==
   /\ id \notin DOMAIN ops /\ e \in Ends
-  /\ PendAt(e, "W") = {}
-  /\ ops' = ops @@ (id :> NewOp("W", e, 0, dg, "wf"))
+  /\ {w \in PendAt(e, "W") : ops[w].lane = lane} = {}
+  /\ ops' = ops @@ (id :> [NewOp("W", e, 0, dg, "wf") EXCEPT !.lane = lane, !.s = Clock(e)])
   /\ UNCHANGED <<cfg, q, sent, got, broken, nW, nR, nraw>>
+WStart(id, e, dg) == WStartL(id, e, dg, 0)
 
 WOk(id, n) ==
   /\ Pending(id) /\ ops[id].typ = "W" /\ ops[id].conn = 0
@@ -89,7 +100,7 @@ WOk(id, n) ==
        /\ nW' = [nW EXCEPT ![e] = n]
        /\ IF ops[id].taken
             THEN UNCHANGED <<q, sent>>
-            ELSE /\ q' = [q EXCEPT ![e] = Append(@, [dg |-> ops[id].dg, wf |-> TRUE])]
+            ELSE /\ q' = [q EXCEPT ![e] = Append(@, [dg |-> ops[id].dg, wf |-> TRUE, s |-> ops[id].s, o |-> Clock(e) + 1])]
                  /\ sent' = [sent EXCEPT ![e] = Append(@, ops[id].dg)]
   /\ ops' = [ops EXCEPT ![id].st = "ret"]
   /\ UNCHANGED <<cfg, got, broken, nR, nraw>>
@@ -113,33 +124,48 @@ RECURSIVE DropBad(_)
 DropBad(s) == IF s # <<>> /\ ~Head(s).wf THEN DropBad(Tail(s)) ELSE s
 Vis(o) == IF broken THEN DropBad(q[o]) ELSE q[o]
 
-\* A read returns the OLDEST undelivered well-formed item of the other end -
-\* ordered, exactly once (the item leaves the queue), equal (same digest).
+\* A read returns an undelivered item of the other end that NO other undelivered item precedes - for a single
+\* writer: the oldest one - ordered, exactly once (the item leaves the queue), equal (same digest).
 ROk(id, dg, n) ==
   /\ Pending(id) /\ ops[id].typ = "R" /\ ops[id].conn = 0
   /\ LET e == ops[id].end
          o == Other(ops[id].end)
-         v == Vis(Other(ops[id].end)) IN
+         v == Vis(Other(ops[id].end))
+         \* queued items with that digest which nothing still queued precedes (later entries completed later)
+         cq == {i \in 1..Len(v) : v[i].dg = dg /\ \A j \in 1..(i - 1) : v[j].o > v[i].s}
+         \* writes in flight with that digest which nothing queued precedes
+         cf == {w \in InFlight(o) : ops[w].dg = dg /\ \A j \in 1..Len(v) : v[j].o > ops[w].s}
+         reorder == "Reorder" \in Bug /\ Len(v) > 1 IN
        /\ n = nR[e] + 1
        /\ nR' = [nR EXCEPT ![e] = n]
        /\ got' = [got EXCEPT ![e] = Append(@, dg)]
-       /\ IF v # <<>>
-            THEN /\ UNCHANGED sent
-                 /\ CASE "Reorder" \in Bug /\ Len(v) > 1 ->
-                           /\ v[2].dg = dg
-                           /\ q' = [q EXCEPT ![o] = <<v[1]>> \o SubSeq(v, 3, Len(v))]
-                           /\ ops' = [ops EXCEPT ![id].st = "ret"]
-                      [] OTHER ->
-                           /\ G("deliver", Head(v).wf \/ "DeliverMalformed" \in Bug)
-                           /\ G("order", Head(v).dg = dg)
-                           /\ q' = [q EXCEPT ![o] = IF "Duplicate" \in Bug THEN v ELSE Tail(v)]
-                           /\ ops' = [ops EXCEPT ![id].st = "ret"]
-            ELSE \* nothing queued: the value of the write in flight at the other end
-                 /\ \E w \in InFlight(o) :
-                      /\ G("order", ops[w].dg = dg)
-                      /\ ops' = [ops EXCEPT ![w].taken = TRUE, ![id].st = "ret"]
+       /\ CASE reorder ->
+                 /\ v[2].dg = dg
+                 /\ q' = [q EXCEPT ![o] = <<v[1]>> \o SubSeq(v, 3, Len(v))]
+                 /\ ops' = [ops EXCEPT ![id].st = "ret"]
+                 /\ UNCHANGED sent
+            [] ~reorder /\ cq # {} ->
+                 LET i == TMin(cq) IN
+                 /\ G("deliver", v[i].wf \/ "DeliverMalformed" \in Bug)
+                 /\ q' = [q EXCEPT ![o] = IF "Duplicate" \in Bug THEN v ELSE TRemoveAt(v, i)]
+                 /\ ops' = [ops EXCEPT ![id].st = "ret"]
+                 /\ UNCHANGED sent
+            [] ~reorder /\ cq = {} /\ cf # {} ->
+                 \* the value of a write in flight at the other end (its WOk is logged later)
+                 /\ \E w \in cf : ops' = [ops EXCEPT ![w].taken = TRUE, ![id].st = "ret"]
                  /\ sent' = [sent EXCEPT ![o] = Append(@, dg)]
                  /\ q' = [q EXCEPT ![o] = v]
+            [] OTHER ->
+                 \* nothing that may be delivered next has this value: out of order, duplicated, altered or invented
+                 /\ "order" \in Off
+                 /\ IF v # <<>>
+                      THEN /\ G("deliver", Head(v).wf \/ "DeliverMalformed" \in Bug)
+                           /\ q' = [q EXCEPT ![o] = Tail(v)]
+                           /\ ops' = [ops EXCEPT ![id].st = "ret"]
+                           /\ UNCHANGED sent
+                      ELSE /\ \E w \in InFlight(o) : ops' = [ops EXCEPT ![w].taken = TRUE, ![id].st = "ret"]
+                           /\ sent' = [sent EXCEPT ![o] = Append(@, dg)]
+                           /\ q' = [q EXCEPT ![o] = v]
   /\ UNCHANGED <<cfg, broken, nW, nraw>>
 
 \* A read fails because the next input is malformed (which consumes it: it is
@@ -169,7 +195,7 @@ CtxDone(id) ==
 \* decode to an envelope with digest dg, anything else ("bad", "text") if not.
 RawIn(e, cls, dg) ==
   /\ e \in Ends /\ PendAt(e, "W") = {}
-  /\ q' = [q EXCEPT ![e] = Append(@, [dg |-> dg, wf |-> (cls = "wf")])]
+  /\ q' = [q EXCEPT ![e] = Append(@, [dg |-> dg, wf |-> (cls = "wf"), s |-> Clock(e), o |-> Clock(e) + 1])]
   /\ sent' = IF cls = "wf" THEN [sent EXCEPT ![e] = Append(@, dg)] ELSE sent
   /\ nraw' = nraw + 1
   /\ UNCHANGED <<cfg, ops, got, broken, nW, nR>>
